@@ -28,7 +28,7 @@ man = {
     "notes": "Every check: rebuild harness against /repo's working tree, regenerate Gen/*.v, make, re-check Props/<id>.v, correspondence, oracle search. See DESIGN.md.",
 }
 for pid in ids:
-    if pid in PROPS:
+    if pid in PROPS and os.path.exists(HERE + '/coq/theories/Props/%s.v' % pid):
         c = PROPS[pid]
         man["checks"].append({
             "property_id": pid,
